@@ -151,6 +151,10 @@ PNextRLOK(e) ==
      LET t == e.dist[i][1] IN
      WEq(e.sr, RLNext(e.sr, e.G, X, IF t = e.eos THEN "" ELSE t), e.dist[i][2])
 
+(* a proper deterministic right-linear grammar has total weight one at every nonterminal (however slowly the *)
+(* iteration converges): the recorded totals are compared with 1 in fixed point                                *)
+TreesumRLOK(e) == \A i \in DOMAIN e.chart : e.chart[i][1] \in NTs(e.G) => WEq(e.sr, One(e.sr), e.chart[i][2])
+
 InDomainIn(e) ==
   CASE e.op \in {"parse"} -> InsideExact(e.sr, e.G)
     [] e.op \in {"prefix", "treesum", "treesum1", "pnext", "ntw", "lmcall", "explen", "pnextseq"} ->
@@ -158,7 +162,7 @@ InDomainIn(e) ==
     [] e.op \in {"transform", "derivative", "addeos"} -> InsideExact(e.sr, e.in)
     [] e.op \in {"prefixgrammar", "normalize"} -> InsideExact(e.sr, e.in) /\ TreeSumExact(e.sr, e.in)
     [] e.op = "lang" -> InsideExact(e.sr, e.G)
-    [] e.op = "pnextrl" -> DetRL(e.G) /\ ProperRL(e.sr, e.G)
+    [] e.op \in {"pnextrl", "treesumrl"} -> DetRL(e.G) /\ ProperRL(e.sr, e.G)
     [] OTHER -> TRUE
 (* the grammar the CODE produced left the exact domain (a unary / nullable cycle over the rationals): not judged *)
 InDomainOut(e) ==
@@ -189,6 +193,7 @@ Failed(e) ==
     [] e.op = "ntw" -> IF NtwOK(e) THEN {} ELSE {"nexttoken"}
     [] e.op = "lmcall" -> IF LmCallOK(e) THEN {} ELSE {"chainrule"}
     [] e.op = "explen" -> IF ExpLenOK(e) THEN {} ELSE {"explen"}
+    [] e.op = "treesumrl" -> IF TreesumRLOK(e) THEN {} ELSE {"treesum"}
     [] e.op = "pnextrl" -> IF PNextRLOK(e) THEN {} ELSE {"longcontext"}
     [] e.op = "pnextseq" -> IF PNextSeqOK(e) THEN {} ELSE {"chainrule"}
     [] e.op = "mapbool" -> IF MapBoolOK(e) THEN {} ELSE {"support"}
